@@ -3,11 +3,11 @@
    equality and an arbitrary parent function H2; nothing is assumed about H2:
    conclusions are "the property, or an explicit collision of H2".
    [merkle_root] is the model of crypto.ComputeRoot from C07: the root the
-   header commits to.  [parse_top] is the recursive reference verifier; the
-   iterative stack machine of CheckMerkleBlock ([check_merkle_block]) is tied
-   to it, and both to the Go code, by the correspondence run (see notes/C08.md). *)
+   header commits to.  [parse_top] is the recursive reference verifier;
+   [check_merkle_block] is the iterative stack machine that CheckMerkleBlock
+   really is, proved equal to it (C08_check_merkle_block_eq_parse_top). *)
 From Coq Require Import List Bool NArith.
-From ELA Require Import model.C07_Merkle model.C08_PMT proof.C08_PMT proof.C08_Sweep.
+From ELA Require Import model.C07_Merkle model.C08_PMT proof.C08_PMT proof.C08_Iter.
 (* the correspondence checker is required (not imported) only so that building this
    file also rebuilds it when the model changes; no theorem below uses it *)
 From ELA Require corr.C08_corr.
@@ -64,24 +64,50 @@ Section C08.
   Proof. exact (branch_eval hash H2 h0). Qed.
 End C08.
 
-(* The iterative stack machine of CheckMerkleBlock agrees with the recursive
-   reference verifier on an exhaustively swept finite domain: claimed counts
-   0..6, no flag byte or any one flag byte (all 256 values), every hash list of
-   length <= 3 over three values, root = the one the parser computes or 0, for a
-   deliberately colliding parent function.  (The unbounded equality is not
-   proved; beyond this domain the two are compared on every run, see notes.) *)
-Theorem C08_iter_eq_parse_bounded : forall n fl hs r,
-  In n sweep_counts -> In fl sweep_flags -> In hs sweep_hashes -> In r (sweep_roots n fl hs) ->
-  agree (check_merkle_block N N.eq_dec sweep_h2 n r fl hs)
-        (parse_top N N.eq_dec sweep_h2 (N.to_nat n) r fl hs) = true.
-Proof. exact iter_eq_parse_bounded. Qed.
+(* The iterative stack machine of CheckMerkleBlock (code position numbering,
+   dead-zone test, explicit stack, fuel 16*len(flags)+8) computes exactly what
+   the recursive reference verifier computes: every transaction count up to
+   pact.MaxTxPerBlock, every root, every flag string, every hash list; it never
+   panics and never runs out of fuel. *)
+Theorem C08_check_merkle_block_eq_parse_top : forall (hash : Type)
+  (hash_eq_dec : forall a b : hash, {a = b} + {a <> b}) (H2 : hash -> hash -> hash)
+  (n : nat) root flags hs, (N.of_nat n <= max_tx_per_block)%N ->
+  check_merkle_block hash hash_eq_dec H2 (N.of_nat n) root flags hs =
+  match parse_top hash hash_eq_dec H2 n root flags hs with
+  | Some ms => OkMatches hash ms
+  | None => Reject hash
+  end.
+Proof. exact check_merkle_block_eq_parse_top. Qed.
+
+(* Hence, for CheckMerkleBlock itself: complete and exact on the message the node builds ... *)
+Theorem C08_check_build : forall (hash : Type)
+  (hash_eq_dec : forall a b : hash, {a = b} + {a <> b}) (H2 : hash -> hash -> hash) (h0 : hash)
+  (txs : list hash) (mt : list bool) r, NoDup txs -> length mt = length txs ->
+  merkle_root hash H2 txs = Some r -> (N.of_nat (length txs) <= max_tx_per_block)%N ->
+  let bh := build hash H2 h0 txs mt (tree_height hash txs) 0 in
+  check_merkle_block hash hash_eq_dec H2 (N.of_nat (length txs)) r (pack_flags (fst bh)) (snd bh)
+    = OkMatches hash (matched hash txs mt) \/ collision hash H2.
+Proof. exact check_build. Qed.
+
+(* ... and sound for any message with any claimed count (counts above
+   MaxTxPerBlock are rejected outright). *)
+Theorem C08_check_sound_any_count : forall (hash : Type)
+  (hash_eq_dec : forall a b : hash, {a = b} + {a <> b}) (H2 : hash -> hash -> hash) (h0 : hash)
+  (txs : list hash) (n' : N) r flags hs ms, NoDup txs ->
+  merkle_root hash H2 txs = Some r ->
+  check_merkle_block hash hash_eq_dec H2 n' r flags hs = OkMatches hash ms ->
+  Forall (fun m => In m txs \/ exists a b, m = H2 a b) ms
+  \/ collision hash H2 \/ leaf_is_node hash H2 txs.
+Proof. exact check_sound_any_count. Qed.
 
 Print Assumptions C08_pmt_root_is_block_root.
 Print Assumptions C08_parse_build.
 Print Assumptions C08_parse_sound.
 Print Assumptions C08_parse_sound_any_count.
 Print Assumptions C08_branch_eval.
-Print Assumptions C08_iter_eq_parse_bounded.
+Print Assumptions C08_check_merkle_block_eq_parse_top.
+Print Assumptions C08_check_build.
+Print Assumptions C08_check_sound_any_count.
 
 (* Non-vacuity: a 5-transaction block, pattern {1, 4}: the built message
    verifies (recursive parser and iterative checker) to exactly [2; 5]; the
